@@ -163,7 +163,12 @@ class Report:
                 self._failure(name, None, None, known, match_known, solver_out=solver_out)
                 continue
             changed = self._changed_functions(base, d["lemma"])
-            if name in base.get("groups", {}) and changed:
+            groups = base.get("groups", {})
+            # an exception-freedom obligation exists only on paths that raise: after a source change it can be new; it
+            # counts as "discharged on the reference tree" when the lemma itself was (no such path existed there)
+            exc_ob = "::no-exception" in name or "::only-declared-exceptions" in name
+            lemma_in_base = any(k.startswith(d["lemma"] + "::") or k.startswith(d["lemma"] + "[") for k in groups)
+            if (name in groups or (exc_ob and lemma_in_base)) and changed:
                 solver_out["changed_functions"] = changed
                 self._failure(name, None, None, known, match_known, no_input=True, solver_out=solver_out)
             else:
